@@ -62,24 +62,25 @@ type Violation struct {
 
 // Evidence accumulates what a check observed and renders the evidence file.
 type Evidence struct {
-	mu        sync.Mutex
-	ID        string
-	Level     string
-	Rule      string
-	start     time.Time
-	evals     int
-	distinct  map[uint64]struct{}
-	samples   []interface{}
-	maxSample int
-	counters  map[string]int64
-	notes     map[string]interface{}
-	assume    []string
-	viol      []Violation
-	violKeys  map[string]int
-	known     map[string]string
-	inconcl   int
-	exhaust   bool
-	minNT     int
+	mu            sync.Mutex
+	ID            string
+	Level         string
+	Rule          string
+	start         time.Time
+	evals         int
+	distinct      map[uint64]struct{}
+	samples       []interface{}
+	maxSample     int
+	counters      map[string]int64
+	notes         map[string]interface{}
+	assume        []string
+	viol          []Violation
+	violKeys      map[string]int
+	known         map[string]string
+	inconcl       int
+	pendingExport []Violation
+	exhaust       bool
+	minNT         int
 }
 
 // NewEvidence starts an evidence record for one property.
@@ -332,4 +333,83 @@ func (e *Evidence) Finish() string {
 	fmt.Printf("RESULT property=%s status=%s evaluations=%d distinct_nontrivial=%d violations=%d known=%d inconclusive=%d wall=%.1fs\n",
 		e.ID, status, e.evals, len(e.distinct), unknown, len(kf), e.inconcl, time.Since(e.start).Seconds())
 	return status
+}
+
+// Exported is the serialisable content of an Evidence (child -> parent).
+type Exported struct {
+	Evals      int                    `json:"evals"`
+	Distinct   []uint64               `json:"distinct"`
+	Samples    []interface{}          `json:"samples"`
+	Counters   map[string]int64       `json:"counters"`
+	Notes      map[string]interface{} `json:"notes"`
+	Violations []Violation            `json:"violations"`
+	Inconcl    int                    `json:"inconclusive"`
+}
+
+// Export writes what was accumulated so far to a file (used by child
+// processes; violations are re-raised by the parent on Import).
+func (e *Evidence) Export(path string) error {
+	e.mu.Lock()
+	defer e.mu.Unlock()
+	x := Exported{Evals: e.evals, Samples: e.samples, Counters: e.counters, Notes: e.notes, Violations: e.pendingExport, Inconcl: e.inconcl}
+	for h := range e.distinct {
+		x.Distinct = append(x.Distinct, h)
+	}
+	body, err := json.Marshal(x)
+	if err != nil {
+		return err
+	}
+	return os.WriteFile(path, body, 0o644)
+}
+
+// Defer records a violation for export instead of raising it (child side).
+func (e *Evidence) Defer(key string, detail interface{}) {
+	e.mu.Lock()
+	e.pendingExport = append(e.pendingExport, Violation{Key: key, Detail: detail})
+	e.mu.Unlock()
+}
+
+// Import merges a child's export and raises its violations.
+func (e *Evidence) Import(path string) error {
+	body, err := os.ReadFile(path)
+	if err != nil {
+		return err
+	}
+	var x Exported
+	if err := json.Unmarshal(body, &x); err != nil {
+		return err
+	}
+	e.mu.Lock()
+	e.evals += x.Evals
+	for _, h := range x.Distinct {
+		e.distinct[h] = struct{}{}
+	}
+	for _, s := range x.Samples {
+		if len(e.samples) < e.maxSample {
+			e.samples = append(e.samples, s)
+		}
+	}
+	for k, v := range x.Counters {
+		e.counters[k] += v
+	}
+	for k, v := range x.Notes {
+		e.notes[k] = v
+	}
+	e.inconcl += x.Inconcl
+	e.mu.Unlock()
+	for _, v := range x.Violations {
+		e.Violate(v.Key, v.Detail)
+	}
+	return nil
+}
+
+// RaiseDeferred raises violations recorded with Defer in this process.
+func (e *Evidence) RaiseDeferred() {
+	e.mu.Lock()
+	p := e.pendingExport
+	e.pendingExport = nil
+	e.mu.Unlock()
+	for _, v := range p {
+		e.Violate(v.Key, v.Detail)
+	}
 }
